@@ -4,7 +4,7 @@
    code used (H3: m * tau_k <= rho * v_fav with rho = m^(1/(k+1)) (1+1e-12)). *)
 From Coq Require Import QArith List Lia.
 Import ListNotations.
-From SCK Require Import ElicitM ElicitRules ElicitFinal Distortion KarvFinal.
+From SCK Require Import ElicitM ElicitRules ElicitFinal Distortion KarvFinal TsfFinal.
 Local Open Scope Q_scope.
 
 (* k-ARV: I agents, J alternatives, v true and vt simulated values, fav i agent i's favourite, tk i its last
@@ -59,3 +59,26 @@ Theorem C16_karv_end_to_end : forall fixer V P k tau rho,
   sumQ (fun i => Vat fixer V i x) (seq 0 n) <= 2 * rho * sumQ (fun i => Vat fixer V i y) (seq 0 n).
 Proof. exact karv_end_to_end. Qed.
 Print Assumptions C16_karv_end_to_end.
+
+(* END TO END for lambda-TSF (square profiles, initial simulated value eps): same hypotheses on the thresholds with
+   n tau_k <= rho v_fav (evaluated per explored case on the actual floats by DistCheck.chk_tsf_hyp). vt = the simulated
+   profile returned by running the rule's query program. Then for every one-to-one assignment X and every one-to-one
+   assignment Y maximising the simulated welfare (what the maximum-weight matching step returns; its maximality is
+   certified per case by C04's checker): SW(X) <= 2 rho (SW(Y) + n eps). *)
+Theorem C16_tsf_end_to_end : forall fixer V P k tau rho eps,
+  let n := length P in let m := length (nth 0 P []) in
+  m = n -> (1 <= m)%nat -> (1 <= k)%nat ->
+  (forall row, In row P -> length row = m /\ strict_rowb row = true) ->
+  (forall i j j', (i < n)%nat -> (j < m)%nat -> (j' < m)%nat -> (nth j (nth i P []) 0 <= nth j' (nth i P []) 0)%Z -> Vat fixer V i j' <= Vat fixer V i j) ->
+  (forall i j, (i < n)%nat -> (j < m)%nat -> 0 <= Vat fixer V i j) ->
+  0 <= eps -> 1 <= rho ->
+  (forall i l, (i < n)%nat -> (1 <= l)%nat -> (l <= k)%nat -> 0 <= tauof tau i l) ->
+  (forall i l, (i < n)%nat -> (1 <= l)%nat -> (l < k)%nat -> tauof tau i (S l) <= tauof tau i l) ->
+  (forall i, (i < n)%nat -> Vat fixer V i (TsfFinal.tfav P i) <= rho * tauof tau i 1) ->
+  (forall i l, (i < n)%nat -> (1 <= l)%nat -> (l < k)%nat -> tauof tau i l <= rho * tauof tau i (S l)) ->
+  (forall i, (i < n)%nat -> inject_Z (Z.of_nat n) * tauof tau i k <= rho * Vat fixer V i (TsfFinal.tfav P i)) ->
+  forall X Y, TsfFinal.Asg P X -> TsfFinal.Asg P Y ->
+  (forall sg, TsfFinal.Asg P sg -> sumQ (fun i => TsfFinal.tvt fixer V P k tau eps i (sg i)) (seq 0 n) <= sumQ (fun i => TsfFinal.tvt fixer V P k tau eps i (Y i)) (seq 0 n)) ->
+  sumQ (fun i => Vat fixer V i (X i)) (seq 0 n) <= 2 * rho * (sumQ (fun i => Vat fixer V i (Y i)) (seq 0 n) + inject_Z (Z.of_nat n) * eps).
+Proof. exact TsfFinal.tsf_end_to_end. Qed.
+Print Assumptions C16_tsf_end_to_end.
